@@ -260,7 +260,18 @@ fn cmd_check(args: &[String]) {
             let _ = std::fs::remove_dir_all(&sandbox);
             let prop = property.clone();
             let t_run = real_now();
-            let (mut res, applied, prepared) = run_plan(&v, &sandbox, false, false, &|rec| judge(&prop, &v, &reference, rec));
+            let (mut res, mut applied, mut prepared) = run_plan(&v, &sandbox, false, false, &|rec| judge(&prop, &v, &reference, rec));
+            if res.rec.outcome.class == "steps-exhausted" && v.max_steps.unwrap_or(exec::MAX_STEPS) < STEPS_SECOND_CHANCE {
+                // The step bound scales with the reference run, which yields nowhere inside jobs; a
+                // variation that yields at every Context access can need thousands of times more
+                // steps and still be making progress. Only a run that also exhausts a bound a
+                // hundred times larger is called stuck.
+                v.max_steps = Some(STEPS_SECOND_CHANCE);
+                v.cpu_limit_s = Some(v.cpu_limit_s.unwrap_or(child::CPU_LIMIT_S).max(900));
+                let _ = std::fs::remove_dir_all(&sandbox);
+                (res, applied, prepared) = run_plan(&v, &sandbox, false, false, &|rec| judge(&prop, &v, &reference, rec));
+                *res.rec.probes.entry("second-chance-after-step-bound".to_string()).or_default() += 1;
+            }
             for h in &prepared {
                 let kind = match &v.history {
                     plan::History::Clean => "history-clean",
@@ -317,6 +328,9 @@ fn real_now() -> f64 {
 
 /// Re-run a recorded violation: reference plan, then the failing plan, then the same oracles.
 /// Exit 0 and a VIOLATION line if it reproduces, 3 if it does not.
+/// the step bound a run gets when it exhausted the ordinary one (see the check loop)
+const STEPS_SECOND_CHANCE: usize = 500_000_000;
+
 fn cmd_replay(args: &[String]) {
     let path = &args[2];
     let text = std::fs::read_to_string(path).expect("read replay file");
